@@ -963,13 +963,17 @@ func H_C10_recombine_invariant_deep() {
 
 // ------------------------------------------------------------------ Rarefy
 
-func vfC10Rarefy(n, L, maxcount int) (rows int) {
+func vfC10Rarefy(n, L, maxcount, maxlast int) (rows int) {
 	al, orig := vfSymAlign(AMINOACIDS, n, L, vfC10Res)
 	counts := make(map[string]int)
 	cnt := make([]int, n)
 	total := 0
 	for i := 0; i < n; i++ {
-		cnt[i] = nondetRange(0, maxcount)
+		if i == 2 {
+			cnt[i] = nondetRange(0, maxlast)
+		} else {
+			cnt[i] = nondetRange(0, maxcount)
+		}
 		if cnt[i] > 0 {
 			counts[vfNames[i]] = cnt[i]
 		}
@@ -1003,12 +1007,12 @@ func vfC10Rarefy(n, L, maxcount int) (rows int) {
 }
 
 // H_C10_rarefy_invariant: Rarefy keeps rows of the original (distinct rows with a positive count, enough of them for nb draws without replacement); the result does not depend on the iteration order of the counts map.
-// bounds: rows n<=3, columns L=1, residues any printable ASCII byte, counts 0..2 per row (0 = no entry in the map), nb in 1..sum (nb=sum must be an error); every outcome of the draws; every iteration order of the counts map
-// outside: n>3, counts>2, nb<=0, counts<=0 present in the map, unknown names in the map
+// bounds: rows n<=3, columns L=1, residues any printable ASCII byte, counts 0..2 for rows 0 and 1, 0..1 for row 2 (0 = no entry in the map), nb in 1..sum (nb=sum must be an error); every outcome of the draws; every iteration order of the counts map
+// outside: n>3, larger counts, nb<=0, counts<=0 present in the map, unknown names in the map
 //verif: maporder=1
 func H_C10_rarefy_invariant() {
 	n := nondetRange(1, 3)
-	rows := vfC10Rarefy(n, 1, 2)
+	rows := vfC10Rarefy(n, 1, 2, 1)
 	verifReach("called")
 	if rows < 0 {
 		verifReach("nb = sum of counts rejected")
@@ -1019,6 +1023,15 @@ func H_C10_rarefy_invariant() {
 	if rows == 2 {
 		verifReach("two rows kept")
 	}
+}
+
+// H_C10_rarefy_invariant_deep: as H_C10_rarefy_invariant with counts 0..3 for rows 0 and 1, 0..2 for row 2, and L=2.
+// bounds: n=3, L=2, counts 0..3 / 0..3 / 0..2, nb in 1..sum; every outcome of the draws; every iteration order of the counts map
+// outside: n>3, larger counts, nb<=0, counts<=0 present in the map, unknown names in the map
+//verif: maporder=1 tier=thorough
+func H_C10_rarefy_invariant_deep() {
+	vfC10Rarefy(3, 2, 3, 2)
+	verifReach("called")
 }
 
 // H_C10_rarefy_support: every row with a positive count (the last one included) can be the one kept by Rarefy(1).
